@@ -715,16 +715,7 @@ JudgeHistApi(tr, T, ev) ==
 (***************************************************************************)
 CpLines(recs) == [i \in 1..Len(recs) |-> recs[i].cp]
 
-\* A worklist is a list of records and the caller may edit it like one (indices as in Python: a.i, a.j count from 0)
-EditList(w, a) ==
-  LET n == Len(w) IN
-  CASE a.kind = "pop" -> SubSeq(w, 1, n - 1)
-    [] a.kind = "pop0" -> SubSeq(w, 2, n)
-    [] a.kind = "reverse" -> [k \in 1..n |-> w[n + 1 - k]]
-    [] a.kind = "insert" -> SubSeq(w, 1, a.i) \o <<a.rec>> \o SubSeq(w, a.i + 1, n)
-    [] a.kind = "setitem" -> [k \in 1..n |-> IF k = a.i + 1 THEN a.rec ELSE w[k]]
-    [] a.kind = "delslice" -> SubSeq(w, 1, a.i) \o SubSeq(w, a.j + 1, n)
-    [] OTHER -> w
+\* (EditList - the caller's own list operations on the record list - is defined in RTFile)
 
 JudgeFile(tr, T, ev) ==
   LET a == ev.a  lines == CpLines(wl) IN {
